@@ -81,6 +81,7 @@ def parseOp (w : World) (line : String) : Option Op :=
   | ["wP", x] => do some (.wP (← parseRat? x))
   | ["wvT", h, x] => do some (.wvT (← h.toNat?) (← parseRat? x))
   | ["wvP", h, x] => do some (.wvP (← h.toNat?) (← parseRat? x))
+  | ["vphase", h, p] => do some (.vPhase (← h.toNat?) (← parsePh p))
   | ["save"] => some .save
   | ["restore", k] => do some (.restore (← k.toNat?))
   | _ => none
